@@ -36,7 +36,7 @@ def render_all(obj) -> dict:
             out[d + "/param"] = sql + " || " + repr(p.values)
         except Exception as ex:  # noqa
             out[d + "/param"] = "EXC:" + type(ex).__name__
-    if "_selects" in getattr(obj, "__dict__", {}) or "base_query" in getattr(obj, "__dict__", {}):
+    if callable(getattr(type(obj), "union", None)):   # query builders and set operations
         # a statement is also looked at the way an embedding statement sees it (bracketed, alias printed)
         try:
             out["generic/embedded"] = obj.get_sql(ctxs()["generic"].copy(subquery=True, with_alias=True))
